@@ -566,6 +566,15 @@ fn check_acceptance<T: HLabel>(env: &mut Env, built: &Built<T>, rng: &mut Rng) {
                             st.cap = Some(cap);
                         }
                         env.ctx.count("queries/on-a-reused-solver-object");
+                        if with_cert && (ai + ei) % 2 == 0 {
+                            // the certificate-less variant of the same query first (not judged here): whatever
+                            // the object keeps from it must not leak into the certificate asked for next
+                            let plain = Query { kind: q.kind, args: q.args.clone(), cert: false };
+                            let _ = ask(built, s, &plain);
+                            let mut st = h.borrow_mut();
+                            st.reset_for_query();
+                            st.cap = Some(cap);
+                        }
                         (ask(built, s, &q), h.clone())
                     }
                     None => run_one(built, t, *enc, &q, cap),
